@@ -83,6 +83,10 @@ def mk_num(n):
     if form == "mul":       # written as `number * h.prefix.X`
         assert ne >= 0
         return (nm * 10 ** ne) * prefix_of(pe)
+    if form == "dmul":      # a Decimal (of any number of digits) times a prefix
+        return d * prefix_of(pe)
+    if form == "smul":      # a numeric string times a prefix
+        return (f"{nm}e{ne}" if ne else str(nm)) * prefix_of(pe)
     raise ValueError(form)
 
 
@@ -580,12 +584,30 @@ def do_near(j):
     return res
 
 
+def do_fpath(n):
+    """export_float on one Prefixed: the Decimal handed to float() (scale(UNIT).number) and the returned double"""
+    from hdl21.sim.proto import export_float
+    from hdl21.scalar import to_scalar
+    x = to_scalar(mk_num(n))
+    if not isinstance(x, Prefixed):
+        raise TypeError(f"not a Prefixed: {x!r}")
+    u = x.scale(Prefix.UNIT).number
+    sign, digits, exp = u.as_tuple()
+    obs = [bool(sign), int("".join(map(str, digits)) or "0"), exp]
+    rnm, rne = dec_me(x.number)
+    try:
+        r = dbl_enc(export_float(x))
+    except Exception as e:
+        r = None
+    return dict(read=[rnm, rne, x.prefix.value], dec=obs, out=r)
+
+
 def do_autoname(n):
     return f"Analysis{n}"
 
 
 def handler(p):
-    f = dict(case=do_case, near=do_near, autoname=do_autoname)[p["kind"]]
+    f = dict(case=do_case, near=do_near, autoname=do_autoname, fpath=do_fpath)[p["kind"]]
     return dict(results=[f(j) for j in p["jobs"]])
 
 
